@@ -244,7 +244,8 @@ Inductive wop : Type :=
 | WGetTrigger (c : nat)
 | WStart (w : nat) (cs : list nat)   (* waiter w calls wait() on a wait set with conditions cs *)
 | WStep (w : nat)                    (* next atomic step of waiter w *)
-| WCancel (w : nat).                 (* the wait future is dropped (timeout) *)
+| WCancel (w : nat)                  (* the wait future is dropped (timeout) *)
+| WTake (w : nat).                   (* the caller takes the result of the finished call *)
 
 Definition w_init (nc nw : nat) : wsys :=
   mkW (sys_init nc 0) (repeat (mkWaiter [] Idle 0) nw).
@@ -322,6 +323,15 @@ Definition wstep (fx : bool) (s : wsys) (o : wop) : wsys :=
           else s
       | None => s
       end
+  | WTake w =>
+      match nth_error (w_waiters s) w with
+      | Some wt =>
+          match w_pc wt with
+          | Done _ => mkW (w_sys s) (upd (w_waiters s) w (mkWaiter (w_att wt) Idle (w_ch wt)))
+          | _ => s
+          end
+      | None => s
+      end
   end.
 
 Definition wrun (fx : bool) (s : wsys) (ops : list wop) : wsys := fold_left (wstep fx) ops s.
@@ -364,3 +374,28 @@ Definition set_del (f : StatusKind -> bool) (k : StatusKind) : StatusKind -> boo
   fun x => if kind_eqb x k then false else f x.
 Definition set_of_list (l : list StatusKind) : StatusKind -> bool :=
   fun x => existsb (kind_eqb x) l.
+
+(* the history of one condition, read off the operations: which statuses are
+   enabled (last set_enabled_statuses, initially all) and which have changed
+   since they were last read (an add after the last remove) *)
+Inductive cev : Type :=
+| EAdd (c : nat) (k : StatusKind) | ERemove (c : nat) (k : StatusKind)
+| ESet (c : nat) (l : list StatusKind) | ENone.
+
+Definition dop_ev (o : dop) : cev :=
+  match o with DAdd c k => EAdd c k | DRemove c k => ERemove c k | DSetEnabled c l => ESet c l | _ => ENone end.
+Definition wop_ev (o : wop) : cev :=
+  match o with WAdd c k => EAdd c k | WRemove c k => ERemove c k | WSetEnabled c l => ESet c l | _ => ENone end.
+
+Definition en_step (c : nat) (f : StatusKind -> bool) (e : cev) : StatusKind -> bool :=
+  match e with ESet c' l => if Nat.eqb c' c then set_of_list l else f | _ => f end.
+Definition chg_step (c : nat) (f : StatusKind -> bool) (e : cev) : StatusKind -> bool :=
+  match e with
+  | EAdd c' k => if Nat.eqb c' c then set_add f k else f
+  | ERemove c' k => if Nat.eqb c' c then set_del f k else f
+  | _ => f
+  end.
+Definition hist_en (evs : list cev) (c : nat) : StatusKind -> bool :=
+  fold_left (en_step c) evs (fun _ => true).
+Definition hist_chg (evs : list cev) (c : nat) : StatusKind -> bool :=
+  fold_left (chg_step c) evs (fun _ => false).
